@@ -1,4 +1,4 @@
-CONSTANTS K = 3  MaxLen = 4  MaxMerges = 3  AnyOrder = TRUE
+CONSTANTS K = 3  MaxLen = 4  MaxMerges = 3  AnyOrder = FALSE
 INIT Init
 NEXT Next
 INVARIANTS TypeOK ExpandInv Progress TerminalIsRef GranularityAgree NoMergeLeft Emit
